@@ -102,6 +102,23 @@ func runC17(c *Ctx) error {
 }
 
 func runConc(c *Ctx, jobs []*SynJob, items map[string][]*DFeed, G, repeat int) error {
+	// every second source-fed input lives in a file of its own and is read through NewLexerFile
+	// (the constructor is part of the generated code too; positions then carry the file's name)
+	srcDir := filepath.Join(c.W.Dir, "srcfiles")
+	os.MkdirAll(srcDir, 0777)
+	nFiles := 0
+	for _, j := range jobs {
+		for i, f := range items[j.Name] {
+			if f.UseSrc && i%2 == 0 {
+				f.File = filepath.Join(srcDir, fmt.Sprintf("%s_%d.txt", j.Name, i))
+				if err := os.WriteFile(f.File, f.Src, 0666); err != nil {
+					return err
+				}
+				nFiles++
+			}
+		}
+	}
+	c.Set("inputs_read_through_NewLexerFile", nFiles)
 	gj := genJobsOf(jobs)
 	c.GenerateAll(gj, true)
 	bin, err := c.BuildDriver(gj, "c17drv", true)
